@@ -149,7 +149,7 @@ def run(ctx):
         else:
             ctx.violation("implementation violates the property: " + what, rep, tag=sig or "impl")
     if ctx.thorough:
-        ok, out = K.leanchecker(ctx, ["Hv.Props.C04", "Hv.Storage.CorruptLemmas"])
+        ok, out = K.leanchecker(ctx, ["Hv.Props.C04", "Hv.Storage.CorruptLemmas", "Hv.Storage.TornLemmas", "Hv.Storage.ReaderLemmas", "Hv.Storage.FormatLemmas"])
         ctx.cov["leanchecker"] = "ok" if ok else out[-500:]
         if not ok:
             ctx.violation("leanchecker rejected the compiled proofs", {"log": out[-2000:]}, tag="leanchecker", found_input=False)
